@@ -28,6 +28,8 @@ TRUSTED_BASE = [
     'harness/*.py: generators, serialiser of symmray states to Gallina literals, canonicalisation before comparison',
     'hand-written Model/*.v is a model of the Python code, tied to it by the correspondence run (not derived)',
     'numpy/autoray block kernels behave as Base/Tensor.v defines them; CPython dict order and int semantics',
+    'coq/GenSnapshot: the last translation accepted on the unchanged tree; used (and recorded as translator_fallback) only when tr/ or the '
+    'proofs reject a changed source, for the properties that do not own that translator tie (DESIGN 0.1)',
 ]
 
 FORBIDDEN = re.compile(r'\b(Admitted|admit|Axiom|Axioms|Parameter|Parameters|Conjecture|Hypothesis|Variable|Variables)\b|'
@@ -202,7 +204,7 @@ def write_coqproject():
 # on the unchanged tree) and is tied to the code by its correspondence checks alone, which run on every check.
 GEN_OWNERS = {'Symmetries.v': ('C17',), 'PhasePerm.v': ('C03',), 'OpOrder.v': ('C04',), 'CacheKey.v': ('C15',),
               'ModeCtx.v': ('C15',), 'HeapSites.v': ('C14',), 'Ham.v': ('C19',), 'LocalOpsData.v': ('C18',),
-              'Ctor.v': ('C16',), 'Helpers.v': ('C05',), 'Interface.v': ('C08',)}
+              'Ctor.v': ('C16',), 'Helpers.v': ('C05',), 'Interface.v': ('C08',), 'OddposGen.v': ('C04',)}
 SNAP = os.path.join(COQ, 'GenSnapshot')
 _GEN_ERRS = (SyntaxError, KeyError, IndexError, AttributeError, ValueError, TypeError, OSError, AssertionError)
 
